@@ -32,6 +32,7 @@ On(c) == c \in Clauses
 FirstFail(s2, e) ==
   LET o == e.obs hs == Handles(s2) IN
   IF e.exc # "none" \/ e.exc_np # "none" THEN "exc"     \* (admissible failures are handled in TNext)
+  ELSE IF s2.oor THEN "out_of_model"
   ELSE IF {h \in 1..Len(o.t) : o.t[h].live} # hs THEN "handles"
   \* --- the NumPy twin first: a disagreement here means the MODEL of NumPy is wrong (machinery error)
   ELSE IF \E h \in hs : o.t[h].np_sh # s2.H[h].sh THEN "np_model_mismatch:shape"
